@@ -102,6 +102,18 @@ where
             }
         }
     }
+    // very deep trees (depth 11-13: the trajectory needs thousands of leapfrog steps before it U-turns): default draws
+    // and single deviations of the direction pattern only; f64 backend
+    if !f32b {
+        for ti in 0..2 {
+            for st in starts(tg[ti].1, false) {
+                bases.push(Base { target: ti, start: st.clone(), eps: 0.0012, bound: 0 });
+                if thorough {
+                    bases.push(Base { target: ti, start: st, eps: 0.0005, bound: 0 });
+                }
+            }
+        }
+    }
     bases.par_iter().for_each(|b| {
         let (target, d, tname) = (&tg[b.target].0, tg[b.target].1, tg[b.target].2);
         let rt = gt_ref(target);
